@@ -56,6 +56,8 @@ var ifaceCases = []struct {
 		"if (s == (var_tab.getD i.toNat ([] : List (BitVec 8)))) then"},
 	{"table of strings, definition", ifacePrelude + `func f(s string) bool { for i := range tab { if s == tab[i] { return true } }; return false }`, "f", true,
 		"def var_tab : List (List (BitVec 8)) := [([97#8, 98#8] : List (BitVec 8)), ([99#8, 100#8] : List (BitVec 8)), ([101#8] : List (BitVec 8))]"},
+	{"exported table is not a constant (another package may modify it)", `var Tab2 = [...]string{"x", "y"}
+func f(s string) bool { for i := range Tab2 { if s == Tab2[i] { return true } }; return false }`, "f", false, "Tab2 is exported"},
 	{"checked index into the table", ifacePrelude, "P.Str", true, "if !(Go.inRangeS p 3) then Go.Flow.panic else"},
 	{"checked index by a byte", ifacePrelude + `func f(v V) string { return tab[v] }`, "f", true, "if !(Go.inRangeU8 v 3) then Go.Flow.panic else"},
 	{"len of the table", ifacePrelude + `func f() int { return len(tab) }`, "f", true, "3#64"},
